@@ -394,7 +394,7 @@ type c12APICase struct {
 	Side  int    `json:"side"`
 }
 
-var c12APIKinds = []string{"close-then-io", "double-close", "write-after-closewrite", "early-closewrite", "failed-handshake-sticky", "early-appdata", "cancel"}
+var c12APIKinds = []string{"close-then-io", "double-close", "write-after-closewrite", "early-closewrite", "failed-handshake-sticky", "early-appdata", "cancel", "write-error-sticky"}
 
 func c12RunAPI(c c12APICase) (sig, msg string, nt bool) {
 	buf := make([]byte, 32)
@@ -445,6 +445,49 @@ func c12RunAPI(c c12APICase) (sig, msg string, nt bool) {
 			if n, err := y.Read(buf); n != 0 || err != io.EOF {
 				return "peer-eof-after-closewrite", fmt.Sprintf("peer Read returned (%d, %v), want io.EOF", n, err), true
 			}
+		}
+		return "", "", true
+	case "write-error-sticky":
+		// A Write that failed (here: the transport's write deadline expired, before the first or
+		// between the records of one payload) has used up sequence numbers: the write half is dead.
+		// Later Writes must keep failing, also once the transport works again, and the peer must see
+		// nothing beyond a prefix of the failed payload.
+		cli, srv, sim, err := c12Established(c.Suite)
+		if err != nil {
+			return "honest-failed", err.Error(), false
+		}
+		x, y, xe := cli, srv, sim.ends[0]
+		if c.Side == 1 {
+			x, y, xe = srv, cli, sim.ends[1]
+		}
+		payload := c01Payload(40000, 5)
+		if c.J%2 == 0 {
+			x.SetWriteDeadline(time.Now().Add(-time.Second))
+		} else {
+			sim.mu.Lock()
+			base := xe.nWrites
+			sim.mu.Unlock()
+			xe.onWrite = func(n int) {
+				if n == base+1+c.J/2 {
+					xe.SetWriteDeadline(time.Now().Add(-time.Second))
+				}
+			}
+		}
+		n1, err1 := x.Write(payload)
+		xe.onWrite = nil
+		if err1 == nil {
+			return "harness", "the injected transport write timeout did not make Write fail", false
+		}
+		x.SetWriteDeadline(time.Time{})
+		for i := 0; i < 3; i++ {
+			if n, err := x.Write([]byte("after the failed write")); err == nil || n != 0 {
+				return "write-after-failed-write", fmt.Sprintf("Write %d after a Write that failed with %v (%d bytes reported) returned (%d, %v)", i+1, err1, n1, n, err), true
+			}
+		}
+		x.Close()
+		got, rerr := io.ReadAll(y)
+		if !bytes.HasPrefix(payload, got) {
+			return "delivered-after-failed-write", fmt.Sprintf("peer received %d bytes that are no prefix of the failed payload (read error %v)", len(got), rerr), true
 		}
 		return "", "", true
 	case "early-closewrite":
@@ -686,7 +729,7 @@ func TestVF_C12(t *testing.T) {
 	}
 	recB.SetExhaustive(vfThorough(), fmt.Sprintf("%d alert cases (5 levels x 256 codes x 2 roles in the thorough tier)", j))
 
-	recC := vfRec("C12", "C12c-api", "API histories: Close then Read/Write, double Close, Write after CloseWrite (read half still usable, peer sees EOF), CloseWrite before completion, failed handshake stays failed (Handshake, Read, Write), application data injected in the clear before every record of the handshake, context cancellation at every transport operation of the handshake; both sides, suites GCM and CBC; distinct = the case")
+	recC := vfRec("C12", "C12c-api", "API histories: Close then Read/Write, double Close, Write after CloseWrite (read half still usable, peer sees EOF), CloseWrite before completion, failed handshake stays failed (Handshake, Read, Write), application data injected in the clear before every record of the handshake, context cancellation at every transport operation of the handshake, a Write failing on a transport write timeout (before the first / between the records of one payload) must stay failed after the deadline is cleared and the peer sees only a prefix; both sides, suites GCM and CBC; distinct = the case")
 	k := 0
 	for _, suite := range suites {
 		for side := 0; side < 2; side++ {
@@ -699,6 +742,8 @@ func TestVF_C12(t *testing.T) {
 					maxJ = 7
 				case "cancel":
 					maxJ = 14
+				case "write-error-sticky":
+					maxJ = 5
 				}
 				for jj := 0; jj <= maxJ; jj++ {
 					k++
